@@ -93,7 +93,8 @@ def uc_case(draw, tier):
                       "desc": draw(st.booleans())})
     return {"part": "uc", "lines": lines,
             "entry": draw(st.sampled_from(["parse_uc", "from_uc",
-                                           "from_uc_map", "cli"]))}
+                                           "from_uc_map", "cli"])),
+            "sub": draw(st.sampled_from([False] * 40 + [True]))}
 
 
 @st.composite
@@ -343,12 +344,13 @@ def check_uc(case, rec):
                                                        "out.biom"))
             open(p, "w").write(text)
             open(fp, "w").write(fasta)
-            try:
-                from_uc.main(["-i", p, "-o", out, "--rep-set-fp", fp],
-                             standalone_mode=False)
-            except SystemExit as e:
-                if e.code not in (0, None):
-                    raise Violation("from-uc-exit", "exit %r" % (e.code,))
+            from ..cli import invoke
+            rc, out_ = invoke(from_uc, "from-uc",
+                              ["-i", p, "-o", out, "--rep-set-fp", fp],
+                              case.get("sub", False))
+            if rc != 0:
+                raise Violation("from-uc-exit", "exit %r: %s" %
+                                (rc, out_[-300:]))
             t = load_table(out)
     snap = observe.snapshot(t)
     want_obs = [rename[o] for o in obs] if rename else obs
@@ -475,3 +477,14 @@ def enum_chunk(tier, chunk):
             for md in (False, True):
                 yield {"part": "forms", "dtype": dtype, "rows": r2,
                        "forms": list(ALL_FORMS), "md": md}
+
+
+REGRESSIONS = [
+    {"part": "uc", "entry": "cli", "sub": True, "lines": [
+        {"t": "S", "q": "s1_q0", "tgt": "seedA_1", "desc": False},
+        {"t": "H", "q": "s2_q1", "tgt": "s1_q0", "desc": True},
+        {"t": "H", "q": "s1_q2", "tgt": "s1_q0", "desc": False},
+        {"t": "L", "q": "s1_q3", "tgt": "lib4_1", "desc": False},
+        {"t": "#", "q": "s1_q3", "tgt": "lib4_1", "desc": False},
+        {"t": "S", "q": "Samp3_q4", "tgt": "otu3_x", "desc": False}]},
+]
